@@ -120,3 +120,28 @@ class Check(object):
         print("check %s (%s): OK  states=%d transitions=%d traces=%d evaluations=%d distinct=%d wall=%.1fs" % (
             self.pid, self.tier, self.states, self.transitions, self.traces, self.evaluations, len(self.distinct), wall))
         sys.exit(0)
+
+
+def pmap(ck, func, jobs, what, timeout=900, procs=16, chunksize=1, ctx=None):
+    """multiprocessing map with a wall-clock limit.  Jobs that have not finished at the deadline (non-termination of the
+    implementation under test, or a worker killed by a signal) are reported as a violation '<what>|hang-or-crash'; the results
+    of all finished jobs are returned (in job order, unfinished ones dropped), so the check still judges everything else."""
+    import multiprocessing as mp, time
+    c = mp.get_context(ctx) if ctx else mp
+    pool = c.Pool(procs)
+    try:
+        asyncs = [pool.apply_async(func, (j,)) for j in jobs]
+        deadline = time.time() + timeout
+        out, hung = [], []
+        for k, a in enumerate(asyncs):
+            try:
+                out.append(a.get(timeout=max(0.1, deadline - time.time())))
+            except mp.TimeoutError:
+                hung.append(k)
+        if hung:
+            ck.violation("%s|hang-or-crash" % what, "%s: %d of %d jobs did not finish within %d s (non-termination of the implementation, "
+                         "or a crashed worker); first: %s" % (what, len(hung), len(jobs), timeout, repr(jobs[hung[0]])[:400]),
+                         {"hung_jobs": [repr(jobs[k])[:2000] for k in hung[:5]]})
+        return out
+    finally:
+        pool.terminate()
